@@ -322,6 +322,42 @@ def run(ctx, scratch):
                               '(central finite differences of the implementation\'s own output)', case=g,
                               expected=r['ok']['fd'], observed=r['ok']['gradient'], activation=g['name'], channels=ch,
                               kind='finite_difference')
+        # outputs over a wide range of magnitudes: each row of the output depends on that row of the signal only
+        # (softmax of a row is invariant under a shift of THAT row; sigmoid and relu are entrywise), whatever the other rows hold
+        import math
+
+        def ref_row(kind, row):
+            if kind in ('softmax', 'CrossEntropy'):
+                m = max(row)
+                e = [math.exp(x - m) for x in row]
+                t = sum(e)
+                return [x / t for x in e]
+            if kind in ('sigmoid', 'BinaryCrossEntropy'):
+                return [1 / (1 + math.exp(-x)) if x >= 0 else math.exp(x) / (1 + math.exp(x)) for x in row]
+            if kind == 'relu':
+                return [max(x, 0.0) for x in row]
+            return list(row)
+        for name in ('identity', 'relu', 'sigmoid', 'softmax', 'CrossEntropy', 'BinaryCrossEntropy'):
+            for _ in range(12 if quick else 150):
+                ch, ns = rng.randint(1, 4), rng.randint(2, 5)
+                offs = [rng.choice([0, 0, 30, -30, 300, -300, 800, -800, 5000, -5000]) for _ in range(ns)]
+                signal = [[offs[i] + round(rng.uniform(-3, 3), 3) for _ in range(ch)] for i in range(ns)]
+                g = dict(name=name, signal=signal)
+                r = impl.call('c19', 'activation_output', g, timeout=30)
+                ctx.traces += 1
+                ctx.count('output_range:%s' % name, ('out', name, signal), True)
+                fam = 'rows_offset_%d' % max(abs(o) for o in offs)
+                if 'ok' not in r:
+                    ctx.violation('activation.output', 'output raised', case=g, expected='a matrix', observed=r,
+                                  activation=name, kind='raised', family=fam)
+                    continue
+                want = [ref_row(name, row) for row in signal]
+                got = r['ok']['output']
+                bad = any(isinstance(x, str) for row in got for x in row) or not mat_close(got, want, 1e-9)
+                if bad:
+                    ctx.violation('activation.output', 'output(signal) is not the row-wise activation of the signal (rows of very '
+                                  'different magnitude)', case=g, expected=want, observed=got, activation=name,
+                                  kind='row_independence', family=fam)
         loss_cases = []
         for name in ('CrossEntropy', 'BinaryCrossEntropy'):
             for ch in (1, 2, 3, 4):
